@@ -613,6 +613,7 @@ def run_case(case):
     res['S'] = toks([len(S)] + [x for a in S for x in encx(a, sm)])
     res['S2'] = toks([len(S2)] + [x for a in S2 for x in encx(a, sm)])
     res['notation'] = has_notation_spec(case)
+    res['mvfields'] = sorted(mv_fields(case, set()))
     try:
         thunk = host.build(case['term'])
     except Exception as e:  # noqa: BLE001
@@ -656,13 +657,23 @@ class Gen:
             if c < 0.8:
                 return ['ev', self.var()]
             return ['sv', self.var()]
-        if c < 0.7:
+        if c < 0.6:
             return ['mv', r.randrange(4), [], [], [], [], []]
-        if c < 0.8:
+        # constrained metavariables: every one of the five lists is exercised (e_fresh, s_fresh, positive, negative,
+        # app_ctx_holes); holes are drawn from {3,4}, disjoint from e_fresh (subset of {0,1,2}), so that the pattern stays
+        # checker-well-formed (the overlapping case is the D9f stream of C02)
+        if c < 0.68:
             return ['mv', r.randrange(4), sorted(r.sample(range(3), r.randrange(1, 3))), [], [], [], []]
-        if c < 0.85:
+        if c < 0.73:
             return ['mv', r.randrange(4), [], [r.randrange(3)], [r.randrange(3)], [], []]
-        if c < 0.95:
+        if c < 0.77:
+            return ['mv', r.randrange(4), [], [], [], sorted(r.sample(range(3), r.randrange(1, 3))), []]
+        if c < 0.83:
+            return ['mv', r.randrange(4), [], [], [], [], sorted(r.sample([3, 4], r.randrange(1, 3)))]
+        if c < 0.88:
+            return ['mv', r.randrange(4), [r.randrange(3)], [r.randrange(3)], [r.randrange(3)], [r.randrange(3)],
+                    [r.choice([3, 4])]]
+        if c < 0.96:
             return ['sym', 's' + str(r.randrange(4))]
         return ['ev', self.var()]
 
@@ -703,6 +714,21 @@ class Gen:
         keys = r.sample(range(4), n)
         st = self.style()
         return [[k, self.pat(r.randrange(3), st)] for k in keys]
+
+
+def mv_fields(s, acc):
+    """which of the five MetaVar lists occur non-empty in a spec (coverage histogram)"""
+    if isinstance(s, list) and s and s[0] == 'mv':
+        for name, l in zip(('e_fresh', 's_fresh', 'positive', 'negative', 'app_ctx_holes'), s[2:7]):
+            if l:
+                acc.add(name)
+    elif isinstance(s, list):
+        for x in s:
+            mv_fields(x, acc)
+    elif isinstance(s, dict):
+        for x in s.values():
+            mv_fields(x, acc)
+    return acc
 
 
 def subpatterns_spec(s, acc):
@@ -1054,6 +1080,119 @@ def gen_modules(seedstr, n, illformed=False):
     return mods
 
 
+# ------------------------------------------------------------------------------------------------
+# the optimising pipeline as an interpreter stack: CountingInterpreter -> finalize() -> MemoizingInterpreter(X)
+# ------------------------------------------------------------------------------------------------
+
+def pressure_modules(seedstr, k):
+    """modules with many axioms and repeated sub-patterns: the memory of the optimising run gets close to the 256 slots
+    of the binary format (finalize() must budget its suggestions by the slots the axioms already occupy)"""
+    rng = random.Random(seedstr)
+    mods = []
+    for j in range(k):
+        n = 130 if j == 0 else rng.randrange(90, 150)
+        shape = 0 if j == 0 else rng.randrange(3)
+        axs = []
+        for i in range(n):
+            if shape == 0:
+                axs.append(['app', ['sym', 's0'], ['ev', i]])
+            elif shape == 1:
+                axs.append(['imp', ['ev', i], ['sym', 's' + str(i % 3)]])
+            else:
+                axs.append(['imp', ['app', ['sym', 's1'], ['ev', i]], ['app', ['sym', 's1'], ['ev', (i + 1) % n]]])
+        picks = [n - 1] if j == 0 else sorted({n - 1, rng.randrange(n), rng.randrange(n // 2, n)})
+        proofs = [['ax', axs[i]] for i in picks]
+        proofs.append(['dyn', ['p1'], [[0, axs[rng.randrange(n)]], [1, axs[n - 2]]]])
+        if shape == 2 and j:
+            i = rng.randrange(n - 1)
+            proofs.append(['lib', 'imp_transitivity', [{'t': ['ax', axs[i]]}, {'t': ['ax', axs[i + 1]]}]])
+        mods.append({'axs': axs, 'proofs': proofs, 'claims': None, 'pressure': n})
+    return mods
+
+
+def run_pipeline(mod):
+    """execute_full of one module under the plain interpreters and under MemoizingInterpreter(X, S) where S is what the
+    REAL CountingInterpreter.finalize() suggests after a real counting pass"""
+    install_reifier()
+    sm = SymMap()
+    res = {'built': False}
+    try:
+        m, thunks, axioms, claims = build_module(mod)
+    except Exception as e:  # noqa: BLE001
+        res['build_exc'] = type(e).__name__
+        return res
+    res['built'] = True
+    res['notation'] = any(term_notation(th._pt) for th in thunks) or any(has_notation(p) for p in axioms + claims)
+    res['n_axioms'] = len(gamma_axioms(m))
+    cl = lambda: [Claim(c) for c in m._claims]  # noqa: E731
+
+    def attempt(make):
+        outs = None
+        try:
+            it, outs = make()
+            m.execute_full(it)
+            return {'ok': True}, it, outs
+        except Exception as e:  # noqa: BLE001
+            return {'ok': False, 'exc': type(e).__name__, 'msg': str(e)[:120]}, None, outs
+
+    def ser():
+        o = [io.BytesIO(), io.BytesIO(), io.BytesIO()]
+        for x in o:
+            x.close = lambda: None
+        return SerializingInterpreter(ExecutionPhase.Gamma, o[0], cl(), o[1], o[2]), o
+
+    def pre():
+        o = [io.StringIO(), io.StringIO(), io.StringIO()]
+        for x in o:
+            x.close = lambda: None
+        return PrettyPrintingInterpreter(ExecutionPhase.Gamma, o[0], cl(), o[1], o[2]), o
+
+    runs = {}
+    runs['basic'], _, _ = attempt(lambda: (BasicInterpreter(ExecutionPhase.Gamma), None))
+    runs['stateful'], _, _ = attempt(lambda: (StatefulInterpreter(ExecutionPhase.Gamma, cl()), None))
+    runs['counting'], analyzer, _ = attempt(lambda: (CountingInterpreter(ExecutionPhase.Gamma, cl()), None))
+    r, _, o = attempt(ser)
+    if r['ok']:
+        r['bytes'] = [x.getvalue().hex() or '-' for x in o]
+    runs['serializing'] = r
+    runs['pretty'], _, _ = attempt(pre)
+    res['runs'] = runs
+    if analyzer is None:
+        return res
+    res['mem_at_finalize'] = len(analyzer.memory)
+    try:
+        S = analyzer.finalize()
+    except Exception as e:  # noqa: BLE001
+        res['finalize_exc'] = type(e).__name__
+        return res
+    res['S_size'] = len(S)
+    Sx = [p for p in S if not has_notation(p)]
+    res['S'] = toks([len(Sx)] + [x for p in sorted(Sx, key=repr) for x in encx(p, sm)])
+    runs['finalize-memo/stateful'], _, _ = attempt(lambda: (MemoizingInterpreter(StatefulInterpreter(ExecutionPhase.Gamma, cl()), set(S)), None))
+
+    def mser():
+        it, o = ser()
+        return MemoizingInterpreter(it, set(S)), o
+
+    def mpre():
+        it, o = pre()
+        return MemoizingInterpreter(it, set(S)), o
+
+    r, _, o = attempt(mser)
+    if r['ok']:
+        r['bytes'] = [x.getvalue().hex() or '-' for x in o]
+    runs['finalize-memo/serializing'] = r
+    runs['finalize-memo/pretty'], _, _ = attempt(mpre)
+    runs['instopt/finalize-memo/serializing'], _, _ = attempt(lambda: (lambda t: (InstantiationOptimizer(t[0]), t[1]))(mser()))
+    if not res['notation']:
+        res['model'] = {
+            'axs': toks([len(axioms)] + [x for a in axioms for x in enc_pat(expand(a), sm)]),
+            'claims': toks([len(claims)] + [x for a in claims for x in encx(a, sm)]),
+            'proofs': toks([len(thunks)] + [x for th in thunks for x in enc_term(th._pt, sm)]),
+        }
+    return res
+
+
 def gamma_axioms(m):
     out = []
     for sub in m._submodules:
@@ -1130,6 +1269,13 @@ def main():
                 except CaseTimeout:
                     r = {'built': False, 'timeout': True}
                 r['mod'] = mspec
+                ans.append(r)
+        elif cmd == 'pipeline':
+            ans = []
+            mods = pressure_modules(req['seed'], req['n']) if 'seed' in req else [req['mod']]
+            for mspec in mods:
+                r = run_pipeline(mspec)
+                r['mod'] = mspec if len(json.dumps(mspec)) < 4000 else {'pressure': mspec.get('pressure'), 'proofs': mspec['proofs'], 'axs_head': mspec['axs'][:3], 'regenerate': {'seed': req.get('seed'), 'n': req.get('n')}}
                 ans.append(r)
         elif cmd == 'shipped':
             ans = shipped()
